@@ -544,11 +544,9 @@ RTRLIB_EXPORT void pfx_table_for_each_ipv4_record(struct pfx_table *pfx_table, p
 {
 	assert(pfx_table);
 
-	if (!pfx_table->ipv4)
-		return;
-
 	pthread_rwlock_rdlock(&(pfx_table->lock));
-	pfx_table_for_each_rec(pfx_table->ipv4, fp, data);
+	if (pfx_table->ipv4)
+		pfx_table_for_each_rec(pfx_table->ipv4, fp, data);
 	pthread_rwlock_unlock(&pfx_table->lock);
 }
 
@@ -556,11 +554,9 @@ RTRLIB_EXPORT void pfx_table_for_each_ipv6_record(struct pfx_table *pfx_table, p
 {
 	assert(pfx_table);
 
-	if (!pfx_table->ipv6)
-		return;
-
 	pthread_rwlock_rdlock(&(pfx_table->lock));
-	pfx_table_for_each_rec(pfx_table->ipv6, fp, data);
+	if (pfx_table->ipv6)
+		pfx_table_for_each_rec(pfx_table->ipv6, fp, data);
 	pthread_rwlock_unlock(&pfx_table->lock);
 }
 
